@@ -1,6 +1,7 @@
 package main
 
 import (
+	"os"
 	"fmt"
 	"go/token"
 	"go/types"
@@ -614,12 +615,38 @@ func (e *ownEngine) analyse(fn *ssa.Function) *fnOwn {
 		}
 		return false
 	}
+	// every return path, with the non-local objects it knew: an object reached through an access path (r.raw) is only
+	// discovered on the paths that touch it - on the others it was not completed, which is an outcome too
+	type retPath struct {
+		known map[string]bool
+		po    pathOutcome
+	}
+	var retPaths []retPath
 	var endPath func(s *pstate, kind string, ret *ssa.Return, header *ssa.BasicBlock)
 	endPath = func(s *pstate, kind string, ret *ssa.Return, header *ssa.BasicBlock) {
 		e.npaths++
 		trace := strings.Join(s.trace, " → ")
 		if trace == "" {
 			trace = "(no request event)"
+		}
+		if kind == "return" {
+			rp := retPath{known: map[string]bool{}, po: pathOutcome{total: 0, trace: trace, pos: s.lastPos, zero: s.zero}}
+			for k := range s.known {
+				rp.known[k] = true
+			}
+			if ret != nil {
+				for _, r := range ret.Results {
+					rp.po.retNil = append(rp.po.retNil, isNilConst(r))
+				}
+				if len(ret.Results) == 1 {
+					if cs, ok := constString(ret.Results[0]); ok {
+						rp.po.ret = cs
+					} else if a, ok := s.assume[ret.Results[0]]; ok {
+						rp.po.ret = a
+					}
+				}
+			}
+			retPaths = append(retPaths, rp)
 		}
 		var keys []string
 		for k := range s.known {
@@ -731,6 +758,16 @@ func (e *ownEngine) analyse(fn *ssa.Function) *fnOwn {
 		}
 	}
 	walk(fn.Blocks[0], s0, 0)
+	for k := range fo.outcomes {
+		if !strings.Contains(k, ".") {
+			continue // parameters and captured variables are known on every path
+		}
+		for _, rp := range retPaths {
+			if !rp.known[k] {
+				fo.outcomes[k] = append(fo.outcomes[k], rp.po)
+			}
+		}
+	}
 	e.done[fn] = fo
 	return fo
 }
@@ -1169,10 +1206,22 @@ func (e *ownEngine) registerHook(fn *ssa.Function, in ssa.Instruction, host stri
 				continue
 			}
 			sm := e.summary(cl, k)
+			if os.Getenv("SAMLINT_DEBUG_OWN") != "" {
+				fmt.Fprintf(os.Stderr, "DEBUG hook %s on %s: %s -> %s %s\n", fnKey(cl), host, k, sm.kind, sm.why)
+			}
+			outer := outerRoot + strings.TrimPrefix(k, root)
+			maySometimes := sm.kind == ownBad && strings.Contains(sm.why, "some paths")
+			if sm.kind == ownConsumes || maySometimes {
+				for _, h := range s.deleg[outer] {
+					if h == host {
+						e.findings = append(e.findings, ownFinding{fn: cl, obj: k, kind: "double", trace: "second hook on " + host + " completes " + outer, pos: cl.Pos(),
+							detail: fmt.Sprintf("two hooks registered on %s complete %q: when both run the second completion closes an already closed channel and crashes the process", host, outer)})
+					}
+				}
+			}
 			if sm.kind != ownConsumes {
 				continue
 			}
-			outer := outerRoot + strings.TrimPrefix(k, root)
 			_ = isReq
 			s.known[outer] = true
 			s.deleg[outer] = append(s.deleg[outer], host)
